@@ -426,9 +426,11 @@ def run(tier):
                         src = strip(n["a"][1])
                         L = strip(n["a"][2])
                         if d is not None and d.get("k") == "bin" and d["op"] == "+" and (strip(d["r"]) or {}).get("k") == "int" \
-                                and strip(d["r"])["v"] == 4 and (strip(d["l"]) or {}).get("k") == "var" and L is not None and L.get("k") == "int" \
+                                and strip(d["r"])["v"] == 4 and (strip(d["l"]) or {}).get("k") == "var" and L is not None \
                                 and src is not None and src.get("k") == "mem" and "TrHashSnapshotCH1" in src.get("f", ""):
-                            copies.append((b["id"], n.get("ln", ln), strip(d["l"])["id"], L["v"]))
+                            while L is not None and L.get("k") == "cast":
+                                L = strip(L["e"])
+                            copies.append((b["id"], n.get("ln", ln), strip(d["l"])["id"], L["v"] if L.get("k") == "int" else ("expr", cu.ftext(L))))
         if not copies:
             continue
         dom = cu.dominators(fn)
@@ -442,8 +444,10 @@ def run(tier):
                             r = strip(n["r"])
                             while r is not None and r.get("k") == "bin" and r["op"] == "=":
                                 r = strip(r["r"])          # a[1] = a[2] = 0
+                            while r is not None and r.get("k") == "cast":
+                                r = strip(r["e"])
                             stores.setdefault((strip(l["b"])["id"], strip(l["i"])["v"]), []).append(
-                                (b["id"], r["v"] if r is not None and r.get("k") == "int" else None))
+                                (b["id"], r["v"] if r is not None and r.get("k") == "int" else (("expr", cu.ftext(r)) if r is not None else None)))
         for (bid, ln, aid, length) in copies:
             n5 += 1
             problems = []
@@ -465,16 +469,17 @@ def run(tier):
                 st_.extend(cu.succs(fn, x_))
             later = [v for (sb, v) in stores.get((aid, 3), []) if sb in reach_ and sb != bid]
             if t3 != [length] or later:
-                problems.append("Hash.length byte is %s%s while %d bytes of Hash(ClientHello1) follow" % (
-                    t3 if t3 else "not a constant set next to the copy", " and is overwritten later" if later else "", length))
-            if length not in (32, 48):
+                problems.append("Hash.length byte is %s%s while %s bytes of Hash(ClientHello1) follow" % (
+                    t3 if t3 else "not set next to the copy", " and is overwritten later" if later else "",
+                    length if not isinstance(length, tuple) else "`%s`" % length[1]))
+            if not isinstance(length, tuple) and length not in (32, 48):
                 problems.append("%d is not the output length of SHA-256 / SHA-384" % length)
             f_ = None
             if problems:
-                f_ = Finding(PROP, "C10.R5", fn.name, "message_hash header for a %d-byte hash" % length,
+                f_ = Finding(PROP, "C10.R5", fn.name, "message_hash header for a %s-byte hash" % (length if not isinstance(length, tuple) else length[1]),
                              "%s:%s %s(): %s" % (fn.relfile, ln, fn.name, "; ".join(problems)), file=fn.relfile, line=ln)
-            res.instance("C10.R5", "%s:%s message_hash || 00 00 %d || Hash(CH1)" % (fn.name, ln, length), not problems, finding=f_)
-    res.floor("C10.R5", 2)
+            res.instance("C10.R5", "%s:%s message_hash || 00 00 %s || Hash(CH1)" % (fn.name, ln, length if not isinstance(length, tuple) else length[1]), not problems, finding=f_)
+    res.floor("C10.R5", 1)
     # the hash of that transcript is the hash of the suite named by the HelloRetryRequest: the client has taken the
     # suite into use on every path on which its ServerHello parser reports a HelloRetryRequest to the caller
     psh = prog.fn("tls13ParseServerHello")
